@@ -127,90 +127,103 @@ def check(env, rep, tier):
                 if f["name"] == "unacknowledged_limit":
                     lim_i = fi
             limit = I.ensure(st, args[0].place.extend(("f", lim_i)), ("int", 8, False), "limit") if lim_i is not None else None
-            # the closures of the round are found by what they are applied to, wherever they are nested:
-            # per-observer update (&mut Observer), retain predicate (&Observer)
-            c_obs = c_ret = None
+            # structure-agnostic: the effects of a round are observed through the stores it makes (sequence, pending id,
+            # counter), wherever they sit - a for_each closure, a for loop, a helper function; the only closure looked up
+            # is the retain predicate, found by its signature (&Observer -> bool)
+            c_ret = None
             for ob in prog.bodies.values():
                 if ob.get("promoted") or not ob["path"].startswith(SUBJ + "resource_changed::{closure") or ob["arg_count"] < 2:
                     continue
                 pt = prog.types[ob["locals"][2]["ty"]]["s"]
-                if pt.startswith("&mut observe::Observer<"):
-                    c_obs = ob if c_obs is None else c_obs
-                elif pt.startswith("&observe::Observer<"):
+                if pt.startswith("&observe::Observer<") and prog.types[ob["locals"][0]["ty"]]["s"] == "bool":
                     c_ret = ob if c_ret is None else c_ret
-            c_round = c_obs
-            if None in (c_obs, c_ret) or not isinstance(conf, IntV) or not isinstance(mid, IntV) or not isinstance(limit, IntV):
-                rep.missing("C15.1", "per-observer update / retain predicate closures or inputs of resource_changed")
+            if c_ret is None or not isinstance(conf, IntV) or not isinstance(mid, IntV) or not isinstance(limit, IntV):
+                rep.missing("C15.1", "retain predicate closure or inputs of resource_changed")
             else:
-                results = {"round": [], "obs": [], "ret": []}
+                results = {"ret": []}
                 seq_stores = []
+                site = {"file": rc["span"]["f"], "line": rc["span"]["l"], "fn": rc["path"]}
+                visit_bodies = [ob for ob in prog.bodies.values() if not ob.get("promoted") and ob["path"].startswith("observe::")
+                                and ob["id"] != rc["id"]
+                                and any(prog.types[ob["locals"][i + 1]["ty"]]["s"].startswith("&mut observe::Observer<") for i in range(ob["arg_count"]))]
+                per_mode = {}
+                for mode in (1, 0):
+                    I = new_interp(prog)
+                    st = State()
+                    args = subject_args(I, prog, rc, st, gargs)
+                    conf, mid = args[3], args[2]
+                    st.add_eq(conf.aff, Aff.const(mode))
+                    limit = I.ensure(st, args[0].place.extend(("f", lim_i)), ("int", 8, False), "limit")
+                    visits = []     # (mid stored ok, unack stored, unack ok)
+                    n_unack = [0]
 
-                def seq_store(I_, ctx, s, place, v, site_):
-                    if place.proj and place.proj[-1] == ("f", i_seq) and ctx.body["path"].startswith(SUBJ + "resource_changed"):
-                        old_v = I_.read(s, place)
-                        if isinstance(old_v, TopV):
-                            old_v = I_.ensure(s, place, ("int", 32, False), "sequence")
-                        seq_stores.append((s.copy(), old_v, v))
-                I.store_hooks.append(seq_store)
+                    def fld_store(I_, ctx, s, place, v, site_, visits=visits, mid=mid, n_unack=n_unack):
+                        if not place.proj:
+                            return
+                        last = place.proj[-1]
+                        if last == ("f", i_seq) and mode == 1:
+                            old_v = I_.read(s, place)
+                            if isinstance(old_v, TopV):
+                                old_v = I_.ensure(s, place, ("int", 32, False), "sequence")
+                            seq_stores.append((s.copy(), old_v, v))
+                        elif last == ("f", i_mid) and isinstance(v, EnumV) and v.path == "core::option::Option":
+                            good = list(v.variants) == [1] and isinstance(v.variants[1], StructV) and isinstance(v.variants[1].fields[0], IntV) \
+                                and v.variants[1].fields[0].aff == mid.aff
+                            s.ghost["mid-stored"] = bool(good)
+                        elif last == ("f", i_unack) and isinstance(v, IntV):
+                            old_v = I_.read(s, place)
+                            if isinstance(old_v, TopV):
+                                old_v = I_.ensure(s, place, None, "count")
+                            from absdom import int_range
+                            inc = isinstance(old_v, IntV) and (v.aff == old_v.aff + 1 or (v.aff.is_const() and v.ty is not None and v.aff.c == int_range(v.ty)[1]))
+                            s.ghost["unack-stored"] = bool(inc)
+                            n_unack[0] += 1
+                    I.store_hooks.append(fld_store)
 
-                def mk(kind):
-                    def hook(I_, ctx, outs):
-                        for s, rv in outs:
-                            ref = s.cells.get((ctx.fid, 2))
-                            results[kind].append((s.copy(), ref, rv))
-                    return hook
-                I.return_hooks[c_obs["id"]] = mk("obs")
-                I.return_hooks[c_ret["id"]] = mk("ret")
-                I.no_join_bodies.update([c_round["id"], c_obs["id"], c_ret["id"]])
-                I, res = run(prog, rc, args=args, st=st, I=I, gargs=gargs)
+                    def checkpoint(s, visits=visits):
+                        if "mid-stored" in s.ghost or "unack-stored" in s.ghost:
+                            visits.append((s.ghost.get("mid-stored"), s.ghost.get("unack-stored")))
+                            s.ghost.pop("mid-stored", None)
+                            s.ghost.pop("unack-stored", None)
 
-                def entry_sym_plus(s, val, k):
-                    """val == (the symbol this field was materialised with) + k"""
-                    if not isinstance(val, IntV):
-                        return False
-                    for sym, co in val.aff.t:
-                        inf = I.syminfo.get(sym)
-                        if co == 1 and len(val.aff.t) == 1 and inf is not None and inf[0] == "unknown":
-                            return val.aff.c == k
-                    return False
+                    def visit_ret(I_, ctx, outs):
+                        for s_, _ in outs:
+                            checkpoint(s_)
+                    for vb in visit_bodies:
+                        I.return_hooks[vb["id"]] = visit_ret
+                        I.no_join_bodies.add(vb["id"])
+
+                    def lhook(I_, ctx, h, head, backs, exits):
+                        for b_ in backs:
+                            checkpoint(b_)
+                    I.loop_hooks.append(lhook)
+                    if mode == 1:
+                        def ret_hook(I_, ctx, outs):
+                            for s_, rv_ in outs:
+                                results["ret"].append((s_.copy(), s_.cells.get((ctx.fid, 2)), rv_))
+                        I.return_hooks[c_ret["id"]] = ret_hook
+                        I.no_join_bodies.add(c_ret["id"])
+                    I.unroll_max_blocks = 0
+                    I, res = run(prog, rc, args=args, st=st, I=I, gargs=gargs)
+                    for s_, _ in res:
+                        checkpoint(s_)
+                    per_mode[mode] = (visits, n_unack[0], I, limit)
                 ok = bool(seq_stores)
                 for s, old_v, new_v in seq_stores:
                     if not (isinstance(old_v, IntV) and isinstance(new_v, IntV) and new_v.aff == old_v.aff + 1):
                         ok = False
-                site = {"file": rc["span"]["f"], "line": rc["span"]["l"], "fn": rc["path"]}
                 rep.ob("C15.1", "sequence+1", ok, "a notification round does not store sequence = previous sequence + 1 (stores seen: %d)" % len(seq_stores), site,
                        sample={"rule": "C15.1", "stores": len(seq_stores)})
-                # per-observer closure
-                ok_mid, ok_cnt = bool(results["obs"]), bool(results["obs"])
-                for s, ref, rv in results["obs"]:
-                    if not isinstance(ref, RefV):
-                        ok_mid = ok_cnt = False
-                        continue
-                    m = I.read(s, ref.place.extend(("f", i_mid)))
-                    if not (isinstance(m, EnumV) and list(m.variants) == [1] and isinstance(m.variants[1], StructV)
-                            and isinstance(m.variants[1].fields[0], IntV) and m.variants[1].fields[0].aff == mid.aff):
-                        ok_mid = False
-                    c = I.read(s, ref.place.extend(("f", i_unack)))
-                    is_conf = s.entails(conf.aff - 1)
-                    not_conf = s.entails(-conf.aff)
-                    if is_conf:
-                        inc = entry_sym_plus(s, c, 1)
-                        if not inc and isinstance(c, IntV) and c.aff.is_const() and c.ty is not None:
-                            # saturating increment: the only other admissible result is the type maximum
-                            from absdom import int_range
-                            inc = c.aff.c == int_range(c.ty)[1]
-                        if not inc:
-                            ok_cnt = False
-                    elif not_conf:
-                        if not (isinstance(c, TopV) or entry_sym_plus(s, c, 0)):
-                            ok_cnt = False
-                    else:
-                        ok_cnt = False
-                site = {"file": c_obs["span"]["f"], "line": c_obs["span"]["l"], "fn": c_obs["path"]}
-                rep.ob("C15.2", "pending-id", ok_mid, "the pending message id is not set to the round's message id on every path", site)
+                v1, u1, I1, limit1 = per_mode[1]
+                v0, u0, _, _ = per_mode[0]
+                ok_mid = bool(v1) and bool(v0) and all(m is True for m, _ in v1 + v0)
+                ok_cnt = bool(v1) and all(u is True for _, u in v1) and u0 == 0
+                rep.ob("C15.2", "pending-id", ok_mid, "the pending message id is not set to the round's message id for every observer visited", site)
                 rep.ob("C15.2", "counter-iff-confirmable", ok_cnt,
-                       "the unacknowledged counter is not incremented exactly on the paths where is_confirmable is true", site,
-                       sample={"rule": "C15.2", "paths": len(results["obs"])})
+                       "the unacknowledged counter is not incremented (by one, saturating) for every observer visited in a confirmable round, "
+                       "and left alone in a non-confirmable one (visits: %d / %d, counter stores in a non-confirmable round: %d)" % (len(v1), len(v0), u0), site,
+                       sample={"rule": "C15.2", "visits_confirmable": len(v1), "visits_non_confirmable": len(v0)})
+                I, limit = I1, limit1
                 # retain predicate
                 ok = bool(results["ret"])
                 for s, ref, rv in results["ret"]:
@@ -293,12 +306,46 @@ def check(env, rep, tier):
                    sample={"rule": "C15.4", "registry_walk_loops": len(walk)})
         # ---------------------------------------------- C15.4 acknowledge
         from rules import c14
-        c14.predicate_rule(prog, rep, "C15.4", "acknowledge", (0,), {"endpoint", "message_id"}, 1, extra=c14.make_ack_extra(prog, i_mid))
+        have_pred = c14.pred_closure(prog, SUBJ + "acknowledge", (0,)) is not None
+        if have_pred:
+            c14.predicate_rule(prog, rep, "C15.4", "acknowledge", (0,), {"endpoint", "message_id"}, 1, extra=c14.make_ack_extra(prog, i_mid))
         resets = []
+        guard = {"n": 0, "bad": 0}
+        hdr = {}
+        try:
+            hdr["mi"] = [i for i, f in enumerate(prog.adts["request::CoapRequest"]["variants"][0]["fields"]) if f["name"] == "message"][0]
+            hdr["hi"] = [i for i, f in enumerate(prog.adts["packet::Packet"]["variants"][0]["fields"]) if f["name"] == "header"][0]
+            hdr["di"] = [i for i, f in enumerate(prog.adts["header::Header"]["variants"][0]["fields"]) if f["name"] == "message_id"][0]
+        except Exception:
+            hdr = None
 
         def ack_store(I_, ctx, s, place, v, site):
-            if ctx.depth == 0 and isinstance(place.key, tuple) and place.key[0] == "h" and place.proj and place.proj[-1][0] == "f":
-                resets.append((place.proj[-1][1], v))
+            if isinstance(place.key, tuple) and place.key[0] == "h" and place.proj and place.proj[-1][0] == "f":
+                if ctx.depth == 0:
+                    resets.append((place.proj[-1][1], v))
+                # wherever the match is decided (a find closure, an inline test in a loop): a reset happens only on a path
+                # on which an endpoint equality test came out true and the observer's pending id equals the request's id
+                if place.proj[-1][1] in (i_unack, i_mid) and not s.ghost.get("ack-guard-checked"):
+                    s.ghost["ack-guard-checked"] = True
+                    guard["n"] += 1
+                    eqs = s.ghost.get("eqs", ())
+                    ep_ok = any(s.entails(Aff.sym(e[0]) - 1) for e in eqs)
+                    obs_place = Place(place.key, place.proj[:-1])
+                    pend = I_.read(s, obs_place.extend(("f", i_mid)))
+                    req = ack_args[1] if len(ack_args) > 1 else None
+                    midv = None
+                    if hdr and isinstance(req, RefV):
+                        rq = I_.read(s, req.place)
+                        try:
+                            midv = rq.fields[hdr["mi"]].fields[hdr["hi"]].fields[hdr["di"]]
+                        except Exception:
+                            midv = None
+                    id_ok = isinstance(pend, EnumV) and list(pend.variants) == [1] and isinstance(pend.variants[1], StructV) \
+                        and isinstance(pend.variants[1].fields[0], IntV) and isinstance(midv, IntV) \
+                        and s.entails_eq(pend.variants[1].fields[0].aff, midv.aff)
+                    if not (ep_ok and id_ok):
+                        guard["bad"] += 1
+        ack_args = []
         out = c14.run_method(prog, "acknowledge")
         ab = find_body(prog, SUBJ + "acknowledge")
         if ab is not None:
@@ -308,7 +355,12 @@ def check(env, rep, tier):
             I.store_hooks.append(ack_store)
             st = State()
             args = subject_args(I, prog, ab, st, gargs)
+            ack_args.extend(args)
             I, res = run(prog, ab, args=args, st=st, I=I, gargs=gargs)
+            rep.ob("C15.4", "acknowledge|reset-only-on-match", guard["n"] >= 1 and guard["bad"] == 0,
+                   "acknowledge resets an observer on %d of %d paths on which an endpoint match and 'pending id == acknowledged id' are not both "
+                   "established" % (guard["bad"], guard["n"]), {"file": ab["span"]["f"], "line": ab["span"]["l"], "fn": ab["path"]},
+                   sample={"rule": "C15.4", "reset_paths": guard["n"], "predicate_closure": have_pred})
             fields = {}
             for fi, v in resets:
                 fields.setdefault(fi, []).append(v)
